@@ -129,7 +129,7 @@ def recentring_mean(v, fn, ps, rec, draw, sizeks):
             out.append("the accumulator %s is not fed by exactly one '+=' in one loop" % num[1])
         else:
             lp = accs[0]["loops"][0]
-            if (lp["lo"], lp["cmp"], lp["hi"]) != (ZERO, "<", sizeks) or accs[0]["val"] != sym.idx(arr, lp["var"]):
+            if not summ.visits(lp, ZERO, sizeks) or accs[0]["val"] != sym.idx(arr, lp["var"]):
                 out.append("the accumulator sums %s over [%s,%s), not the draws noise[i] over [0, n*t*(base-1))" % (
                     sym.show(accs[0]["val"])[:60], sym.show(lp["lo"]), sym.show(lp["hi"])))
     elif num[0] == "call" and num[1] in ("std::accumulate", "accumulate") and len(num[2]) >= 3:
@@ -408,7 +408,7 @@ def run(chk):
         tps, _ = summ.pieces(v, tu, hooks=NOINLINE)
         r = tu.params[0]["n"]
         ms = [p for p in tps if p["kind"] == "store" and p["loops"] and not p.get("byref")]
-        ok = len(ms) == 1 and (ms[0]["loops"][0]["lo"], ms[0]["loops"][0]["cmp"], ms[0]["loops"][0]["hi"]) == (ZERO, "<", P(r, "N")) and \
+        ok = len(ms) == 1 and summ.visits(ms[0]["loops"][0], ZERO, P(r, "N")) and \
             ms[0]["lv"] == sym.idx(P(r, "coefsT"), ms[0]["loops"][0]["var"]) and "operator()" in str(ms[0]["val"][1]) and \
             ("glob", "uniformTorus32_distrib") in ms[0]["val"][2]
         chk.require(ok, "R3", "torusPolynomialUniform draws all N coefficients from uniformTorus32", where=tu.where, ok="coefsT[i] = uniformTorus32_distrib(generator), i < N",
